@@ -32,7 +32,7 @@ Local Open Scope string_scope.
 Local Open Scope bool_scope.
 Local Open Scope list_scope.
 
-Record nattr := mkNA { na_prefix : string; na_ns : string; na_name : string; na_val : string }.
+Record nattr := mkNA { nt_prefix : string; nt_ns : string; nt_name : string; nt_val : string }.
 
 Inductive nxml :=
 | NElem (prefix ns name : string) (decls : list (string * string)) (attrs : list nattr) (kids : list nxml)
@@ -43,7 +43,7 @@ Inductive nxml :=
 Fixpoint erase (x : nxml) : xml :=
   match x with
   | NElem _ ns nm _ attrs ks =>
-    Elem ns nm (map (fun a => mkAttr (na_ns a) (na_name a) (na_val a)) attrs)
+    Elem ns nm (map (fun a => mkAttr (nt_ns a) (nt_name a) (nt_val a)) attrs)
          ((fix go (l : list nxml) : list xml := match l with [] => [] | k :: r => erase k :: go r end) ks)
   | NText s => Text s
   | NComment => Comment
@@ -58,7 +58,7 @@ Definition decl_uri (p : string) (ds : list (string * string)) : option string :
 Fixpoint has_1x_attr (x : nxml) : bool :=
   match x with
   | NElem _ _ _ _ attrs ks =>
-    existsb (fun a => ns_is_1x (na_ns a)) attrs
+    existsb (fun a => ns_is_1x (nt_ns a)) attrs
     || (fix go (l : list nxml) : bool := match l with [] => false | k :: r => has_1x_attr k || go r end) ks
   | _ => false
   end.
@@ -69,18 +69,18 @@ Definition removed_in (env : list (string * bool)) (p : string) : bool :=
 
 (** step 3 on one element.  The attributes travel with a mark: collected in step 1 or not. *)
 Definition first_nval (l : list (bool * nattr)) (name dflt : string) : string :=
-  match find (fun e => String.eqb (na_name (snd e)) name) l with Some e => na_val (snd e) | None => dflt end.
+  match find (fun e => String.eqb (nt_name (snd e)) name) l with Some e => nt_val (snd e) | None => dflt end.
 
 (* xmlSetNsProp(node, ns = (cellml, target), name, val) *)
 Definition nset_prop (l : list (bool * nattr)) (target name val : string) : list (bool * nattr) :=
-  let hit := fun e : bool * nattr => String.eqb (na_name (snd e)) name && String.eqb (na_ns (snd e)) target
-                                     && negb (String.eqb (na_prefix (snd e)) "") in
+  let hit := fun e : bool * nattr => String.eqb (nt_name (snd e)) name && String.eqb (nt_ns (snd e)) target
+                                     && negb (String.eqb (nt_prefix (snd e)) "") in
   if existsb hit l
   then (fix go (l : list (bool * nattr)) (done : bool) : list (bool * nattr) :=
           match l with
           | [] => []
           | e :: r => if negb done && hit e
-                      then (fst e, mkNA (na_prefix (snd e)) (na_ns (snd e)) (na_name (snd e)) val) :: go r true
+                      then (fst e, mkNA (nt_prefix (snd e)) (nt_ns (snd e)) (nt_name (snd e)) val) :: go r true
                       else e :: go r done
           end) l false
   else l ++ [(false, mkNA "cellml" target name val)].
@@ -100,9 +100,9 @@ Fixpoint move_marked (fuel : nat) (target : string) (l : list (bool * nattr)) : 
     match split_marked l with
     | None => l
     | Some (a, x, b) =>
-      let val := first_nval l (na_name x) (na_val x) in
+      let val := first_nval l (nt_name x) (nt_val x) in
       (* set the property on the whole list, then unlink the old attribute (it sits at position |a|) *)
-      let l' := nset_prop (a ++ (false, x) :: b) target (na_name x) val in
+      let l' := nset_prop (a ++ (false, x) :: b) target (nt_name x) val in
       move_marked f target (firstn (length a) l' ++ skipn (S (length a)) l')
     end
   end.
@@ -115,9 +115,9 @@ Fixpoint process (env : list (string * bool)) (binding : string) (x : nxml) : nx
     let decls' := filter (fun d => negb (decl_is_1x d)) decls in
     let binding' := match decl_uri "cellml" decls' with Some u => u | None => binding end in
     let cleared_el := removed_in env' p in
-    let marked := map (fun a => (ns_is_1x (na_ns a),
-                                 if negb (String.eqb (na_prefix a) "") && removed_in env' (na_prefix a)
-                                 then mkNA "" "" (na_name a) (na_val a) else a)) attrs in
+    let marked := map (fun a => (ns_is_1x (nt_ns a),
+                                 if negb (String.eqb (nt_prefix a) "") && removed_in env' (nt_prefix a)
+                                 then mkNA "" "" (nt_name a) (nt_val a) else a)) attrs in
     let attrs' := map snd (move_marked (length attrs) binding' marked) in
     NElem (if cleared_el then "" else p) (if cleared_el then "" else ns) nm decls' attrs'
           ((fix go (l : list nxml) : list nxml := match l with [] => [] | k :: r => process env' binding' k :: go r end) ks)
@@ -133,8 +133,8 @@ Fixpoint override (m : list (string * string)) (p u : string) : list (string * s
   end.
 
 Definition first_per_prefix (attrs : list nattr) : list (string * string) :=
-  fold_left (fun acc a => if String.eqb (na_prefix a) "" || has_prefix (na_prefix a) acc then acc
-                          else acc ++ [(na_prefix a, na_ns a)]) attrs [].
+  fold_left (fun acc a => if String.eqb (nt_prefix a) "" || has_prefix (nt_prefix a) acc then acc
+                          else acc ++ [(nt_prefix a, nt_ns a)]) attrs [].
 
 Fixpoint undefined_ns (acc : list (string * string)) (x : nxml) : list (string * string) :=
   match x with
@@ -157,10 +157,9 @@ Definition stored_math (x : nxml) : nxml :=
     let binding := match decl_uri "cellml" decls2 with Some u => u | None => "" end in
     let cleared_el := removed_in env p in
     (* the math element's own attributes are not collected, but a removed declaration clears them *)
-    let attrs' := map (fun a => if negb (String.eqb (na_prefix a) "") && removed_in env (na_prefix a)
-                                then mkNA "" "" (na_name a) (na_val a) else a) attrs in
-    let ks' := if found then map (process env binding) ks
-               else map (process env binding) ks in
+    let attrs' := map (fun a => if negb (String.eqb (nt_prefix a) "") && removed_in env (nt_prefix a)
+                                then mkNA "" "" (nt_name a) (nt_val a) else a) attrs in
+    let ks' := map (process env binding) ks in
     let undefined := fold_left undefined_ns ks' [] in
     let decls3 := decls2 ++ filter (fun e => negb (has_prefix (fst e) decls2)) undefined in
     NElem (if cleared_el then "" else p) (if cleared_el then "" else ns) nm decls3 attrs' ks'
